@@ -85,7 +85,10 @@ def run(rng: Rng, tier: str, index: int) -> RunResult:
             for k, v in vr.pick(S.EXTRA).items():
                 j[k] = v
             if vr.chance(0.5):
-                j["kid"] = vr.pick(["given-kid-%d" % variant, "given-kid-%d" % variant, "", "0", " "])
+                j["kid"] = vr.pick(["given-kid-%d" % variant, "given-kid-%d" % variant, "", "0", " ",
+                                    # shaped like a thumbprint, but given: a predecessor's, an x5t#S256, a random token
+                                    rk.thumbprint(S.gen_material(vr.sub("pred"), kind)) if kind[0] != "RSA" else b64.enc(vr.sub("kid").bytes_(32)),
+                                    b64.enc(vr.sub("kid").bytes_(32)), b64.enc(vr.sub("kid").bytes_(48)), b64.enc(vr.sub("kid").bytes_(64))])
             items = list(j.items())
             vr.shuffle(items)
             jj = dict(items)
